@@ -123,6 +123,36 @@ where
         acc.conflicting_execs += stats.conflicting_execs;
         acc.timer_fires += stats.timer_fires;
         last_distinct = stats.distinct_traces.len() as u64;
+        if b == Some(0) || b.is_none() {
+            // determinism: replaying the default schedule's recorded choices must reproduce
+            // exactly the same execution, otherwise nothing this engine reports can be trusted
+            if let Some(h0) = outcomes.first().copied() {
+                let o: Arc<Mutex<O>> = Arc::new(Mutex::new(O::default()));
+                let o2 = o.clone();
+                let bd = body.clone();
+                let res0 = {
+                    let rc = RunCfg::default();
+                    ctl::run(&rc, move || bd(o2))
+                };
+                let o3: Arc<Mutex<O>> = Arc::new(Mutex::new(O::default()));
+                let o4 = o3.clone();
+                let bd2 = body.clone();
+                let rc = RunCfg {
+                    replay: res0.decisions.iter().map(|d| (d.chosen, d.n)).collect(),
+                    ..RunCfg::default()
+                };
+                let res1 = ctl::run(&rc, move || bd2(o4));
+                acc.leaked_threads += (res0.leaked_threads + res1.leaked_threads) as u64;
+                leaked_here += (res0.leaked_threads + res1.leaked_threads) as u64;
+                if res0.trace_hash != h0 || res1.trace_hash != h0 || res1.divergence.is_some() {
+                    acc.machinery_errors.push(format!(
+                        "replay is not deterministic for scenario {}: trace hashes {:x} / {:x} / {:x}, divergence {:?}",
+                        scenario, h0, res0.trace_hash, res1.trace_hash, res1.divergence
+                    ));
+                }
+                acc.count("default_schedules_replayed_identically", 1);
+            }
+        }
         if let Some((fails, res, _ob)) = first {
             found = true;
             let mut seen = std::collections::BTreeSet::new();
